@@ -5,7 +5,8 @@ open Lean Drv ESV ESV.Static
 
 /-
 Driver glue for C10: `static.check` {world: [[key, file]], root, cfg?} and `static.check_core` {prog (core AST)}.
-file = {"imports": [key | null], "macros": [{"name","vars","body"}], "routines": [{"id": int | null (coro), "fixed": bool, "body": body | null (alias)}], "ssbscript": bool}
+import = {"direct": key} | {"lookup": [key]} | "invalid"
+file = {"imports": [import], "macros": [{"name","vars","body"}], "routines": [{"id": int | null (coro), "fixed": bool, "body": body | null (alias)}], "ssbscript": bool}
 stmt = ["op", inline] | ["label", n] | ["jump", n] | ["call", n] | ["ret"] | ["end"] | ["hold"] | ["break"] |
        ["continue"] | ["break_loop"] | ["with", stmt] | ["if", [[neg, [hdr], body]], else_body] | ["switch", cases] |
        ["msgswitch", cases] | ["forever", body] | ["while", hdr, body] | ["for", init, hdr, inc, body] | ["macro", name, nargs]
@@ -67,7 +68,13 @@ partial def casesOf (l : List Json) : R Cases := do
 end
 
 def fileOf (j : Json) : R File := do
-  let imports ← (← asArr (← fld j "imports")).mapM (asOpt asStr)
+  let imports ← (← asArr (← fld j "imports")).mapM fun i => do
+    match i with
+    | .str "invalid" => pure Import.invalid
+    | _ =>
+      if let .ok v := i.getObjVal? "direct" then return Import.direct (← asStr v)
+      if let .ok v := i.getObjVal? "lookup" then return Import.lookup (← (← asArr v).mapM asStr)
+      throw s!"bad import {i.compress}"
   let macros ← (← asArr (← fld j "macros")).mapM fun m => do
     pure (⟨← asStr (← fld m "name"), ← (← asArr (← fld m "vars")).mapM asStr, ← stmtsOf (← fld m "body")⟩ : Static.Macro)
   let routines ← (← asArr (← fld j "routines")).mapM fun r => do
@@ -128,8 +135,8 @@ def handle (op : String) (j : Json) : R Json := do
       | none => "no-root"
       | some (f : File) =>
         if f.isSsbScript then "ssbscript"
-        else if f.imports.any Option.isNone then "import-missing"
-        else match importAll (fun s => checkFile cfg w w.length [root] s true) [] f.imports [] with
+        else if (f.resolved w).any Option.isNone then "import-missing"
+        else match importAll (fun s => checkFile cfg w w.length [root] s true) [] (f.resolved w) [] with
           | .error _ => "import"
           | .ok imported => localPhase cfg imported f
     pure (reply r phase)
